@@ -8,7 +8,7 @@ LEVEL = 'other'
 FILES = ['mesonbuild/utils/universal.py', 'mesonbuild/mintro.py', 'mesonbuild/backend/ninjabackend.py', 'mesonbuild/options.py']
 ENCODED = ['mesonlib.replace_if_different (content comparison decides whether the destination is touched; file system = a dictionary with a per-file generation counter)',
            'mintro._list_buildoptions (options inserted into the store in a symbolic order)', 'NinjaBuildElement.add_dep/add_orderdep/write (dependencies inserted in a symbolic order)',
-           'mesonlib.OrderedSet / unique_list (first-occurrence order, whatever the duplicates)', 'options.OptionKey.__lt__/__le__/__gt__/__ge__/__eq__ (what every sorted-by-key writer relies on)']
+           'mesonlib.OrderedSet / unique_list (first-occurrence order, whatever the duplicates)', 'EnvironmentVariables.set/unset/get_env/hash (digest input of the exe-wrapper pickle name; the hasher is a recorder)', 'options.OptionKey.__lt__/__le__/__gt__/__ge__/__eq__ (what every sorted-by-key writer relies on)']
 EXPLANATION = ('The part of C06 a solver can reach: the ORDER in which unordered collections deliver their elements is made a symbolic permutation (that is all a different hash seed, '
                'environment order or directory order can change for these writers) and the text each writer produces must be the same for every permutation; and '
                'replace_if_different, through which configure_file / unity / vala outputs are published, runs on a modelled file system with symbolic old and new contents: the '
@@ -159,9 +159,66 @@ def ob_optionkey_order():
     return h
 
 
+class IOSet:
+    """a set whose iteration order is the insertion order (stand-in for 'some hash order' in the native replay)"""
+    def __init__(self, it=()):
+        self.d = {}
+        for x in it: self.d[x] = None
+    def add(self, x): self.d[x] = None
+    def discard(self, x): self.d.pop(x, None)
+    def remove(self, x): del self.d[x]
+    def update(self, *its):
+        for it in its:
+            for x in it: self.d[x] = None
+    def copy(self): return IOSet(self.d)
+    def __contains__(self, x): return x in self.d
+    def __iter__(self): return iter(list(self.d))
+    def __len__(self): return len(self.d)
+    def __bool__(self): return bool(self.d)
+    def __or__(self, o): r = self.copy(); r.update(o); return r
+    def __sub__(self, o): return IOSet(x for x in self.d if x not in o)
+    def __and__(self, o): return IOSet(x for x in self.d if x in o)
+    def __eq__(self, o): return set(self.d) == set(o)
+    def __repr__(self): return 'IOSet(%r)' % list(self.d)
+
+
+def ob_env_hash():
+    """EnvironmentVariables.hash feeds the digest that names the exe-wrapper pickle (and so appears in build.ninja): it must not depend on the order in which
+    DIFFERENT variables were set / unset (the unset names live in a Python set, whose iteration order follows the hash seed)"""
+    def h():
+        from mesonbuild.utils.core import EnvironmentVariables
+        from harness.c03 import FakeHasher
+        names = [sym_str(1, 'name%d' % i, alphabet='ABCD') for i in range(4)]
+        for i in range(4):
+            for j in range(i): assume(sym_not(mkbool(bt_any(names[i] == names[j]))))
+        vals = [sym_str(1, 'val%d' % i, alphabet='xy') for i in range(2)]
+
+        def build(order):
+            env = EnvironmentVariables()
+            for k in order:
+                if k < 2: env.set(names[k], [vals[k]])
+                else: env.unset(names[k])
+            log = []; hh = FakeHasher(log); env.hash(hh); return hh.text()
+        # the iteration order of a set is the environment's choice (hash seed): symbolically every set() of the analysed module is an insertion-ordered
+        # list, so permuting the insertions permutes the iteration; the native replay gets the same adversarial order through an insertion-ordered stand-in
+        import mesonbuild.utils.core as CORE
+        had = CORE.__dict__.get('set', None)
+        if concrete(): CORE.set = IOSet
+        try:
+            a = build([0, 1, 2, 3]); b = build(permutation(4, 'p'))
+        finally:
+            if concrete():
+                if had is None: del CORE.set
+                else: CORE.set = had
+        check(len(a) == len(b) and decide(bt_any(eq(a, b))), 'the digest input does not depend on the order in which different variables were set / unset')
+        cover('done')
+    return h
+
+
 def obligations(tier):
     return [Obligation('replace-if-different', ob_replace(), dict(old='absent | 0-2 chars over a b newline', new='0-2 chars'), labels=('kept', 'replaced')),
             Obligation('buildoptions-order', ob_buildoptions(), dict(options='b_lto b_ndebug b_pie, symbolic values', insertion_order='every permutation'), labels=('done',)),
             Obligation('ninja-deps-order', ob_ninja_order(), dict(deps='4 (2 symbolic)', orderdeps='3 (1 symbolic)', insertion_order='every permutation of both'), labels=('done',), max_paths=2000000),
             Obligation('optionkey-order', ob_optionkey_order(), dict(keys='2: name 1 char over abc, subproject None | "" | a | b, machine host | build'), labels=('done',)),
+            Obligation('env-hash-order', ob_env_hash(), dict(variables='2 set + 2 unset, distinct symbolic names', order='every permutation'), labels=('done',)),
             Obligation('unique-list', ob_ordered(), dict(elements='1-4 symbolic'), labels=('done',))]
